@@ -8,7 +8,8 @@ ASSUME_SYS = [
     'RedoSys/RedoCore are a faithful reading of the code: bound by replaying every exported behaviour '
     'on the real binaries and comparing exit status, scripts run, file bytes, database rows and edges',
     'sources are not edited while a run is in progress; distinct mtimes per edit (harness sleeps 2 ms)',
-    'flat project directory; directories and symlinks as targets are not modelled here',
+    'one command in flight except in the pair programs (two); directories as targets, symbolic-link sources, spellings and '
+    'subdirectories are modelled; links produced by scripts and directories as dependencies are not',
 ]
 
 
@@ -382,7 +383,7 @@ def pairs_part(pid, tier, verdict, cov, te):
     TLC, the real pair of commands must end as one of the specification's alternatives"""
     fam_ = programs.pair_family()
     if tier != 'thorough':
-        fam_ = [p for p in fam_ if p['name'] in ('pair_chain', 'pair_stamp', 'pair_lockfail')]
+        fam_ = [p for p in fam_ if p['name'] in ('pair_chain', 'pair_stamp', 'pair_lockfail', 'pair_query')]
     v, cov2, te2, wall2 = syscheck.run_family(
         pid, tier, fam_, ['ParFresh', 'ParFailPropagates', 'ParNoTmpLeft', 'ScriptMutex', 'HoldThroughRecord',
                           'ScriptUnderLock', 'NotHung', 'NoPanic', 'Fresh'], [],
